@@ -66,6 +66,9 @@ REGISTRY["C01"] = {
          "gomaxprocs": [4, 2, 1, 8]},
         {"name": "TestC01Lockstep", "label": "TestC01Lockstep-unrestricted", "env": {"VERIF_UNRESTRICTED": "1"},
          "checks": {"quick": 100, "thorough": 1500}, "shards": {"quick": 4, "thorough": 16}},
+        # "with the variables the answered tasks wrote": what a gateway behind a task sees of the task's answer (integers, awkward floats,
+        # partial answers, error modes) is the C08 campaign, run here as part of this check
+        {"name": "TestC08Histories", "pkg": "props/c08", "label": "written-variables", "checks": {"quick": 150, "thorough": 5000}, "shards": {"quick": 4, "thorough": 8}},
     ],
 }
 
@@ -331,6 +334,8 @@ REGISTRY["C20"] = {
         {"name": "TestC20Pool", "checks": {"quick": 25, "thorough": 150}, "shards": {"quick": 8, "thorough": 16}},
         {"name": "TestC20EngineIds", "checks": {"quick": 300, "thorough": 3000}, "shards": {"quick": 2, "thorough": 8}},
         {"name": "TestC20Exhaustion", "mode": "plain", "shards": {"quick": 1, "thorough": 1}},
+        # flow ids in the traces of instances whose activities carry boundary events and are re-entered (every scripted / lock-step run checks that no flow id is announced twice)
+        {"name": "TestC10Boundary", "pkg": "props/c10", "label": "flow-ids-boundary-events", "env": {"VERIF_UNRESTRICTED": "1"}, "checks": {"quick": 80, "thorough": 2000}, "shards": {"quick": 4, "thorough": 8}},
     ],
 }
 
